@@ -344,9 +344,8 @@ pub fn render_integer(
 	}
 
 	out.reserve(zp2 as usize);
-	if iv != 0 {
-		out.push_str(zero_prefix);
-	}
+	// Octal prefix is not passed here for zero, and hexadecimal prefix is printed for zero too: 0x0
+	out.push_str(zero_prefix);
 	for _ in 0..zp2 {
 		out.push('0');
 	}
